@@ -77,5 +77,5 @@ MInit == Init /\ ulog = <<>>
 MStep == Step /\ ulog' = ulog \o Flag(StepOps)
 MSpec == MInit /\ [][MStep]_mvars
 Report == (status[1] # "run") => PrintT(ToJson([pid |-> pid, dec |-> dec, inp |-> inp, ulog |-> ulog, log |-> log, out |-> Out,
-                                               xlog |-> xlog, xnode |-> xnode, xfirst |-> xfirst, delx |-> delx, oc |-> oc, finx |-> finx]))
+                                               xlog |-> xlog, xnode |-> xnode, xfirst |-> xfirst, delx |-> delx, oc |-> oc, finx |-> finx, gl |-> Globals]))
 =============================================================================
